@@ -120,13 +120,24 @@ def parts_for(pid, tier, only):
                                      "closing a Compile context calls run() never",
                                      "equivalence of a program with a meta block to the program with the literal (whole programs), user-defined immediate words: paper / excluded"],
                         bounds="<= 3 entries added by the block, <= 2 results; hidden parts of all stacks symbolic"))
+    elif pid == "C16":
+        from e2.driver import e2_run
+        from e2.lemmas import c16
+        P.append(e2_run(pid, tier, [c16], only=only, flavours=("on",) if tier == "quick" else ("on", "off"),
+                        assumptions=["one call of the real Lex::next (with peek_char / take_char, the real BitvecBuilder and error closures) from any char boundary of a text of symbolic Unicode scalar values: no panic, the token is exactly buf[pos0..pos1] (tiling by induction on calls), integers denote the value of the documented spelling or are rejected, valid spellings are accepted, reals are f64::from_str of the spelling without `_`, escapes and bit-string digits decode as documented",
+                                     "long spellings (i128 limits): hex / binary with shift arithmetic, decimal <= 20 digits with arithmetic, 39-digit decimal with from_str_radix uninterpreted (only that the lexer hands it sign + digits)",
+                                     "printer: Debug of an Int is exactly one Display of the i128; Debug of a bit-string (iter8 chunks as decided by E1) reads back, by the literal rules, as the same bits",
+                                     "std models (trusted): str/String/Chars/char methods, ArcStr/Substr slicing with char-boundary panics, from_str_radix contract, f64::from_str uninterpreted, Formatter as an output recorder",
+                                     "outside: texts with more than 6 characters left per token (except the digit-only long spellings), Display of i128 / f64 (std), vectors and maps re-read through the interpreter's [ ] { } words (paper)"],
+                        bounds="tokens of <= 4 (quick) / <= 6 (thorough) characters after an arbitrary char-boundary offset; digit strings up to 130 characters; bit-strings of <= 3 iter8 chunks"))
     elif pid == "C17":
         from e2.driver import e2_run
         from e2.lemmas import c17
         P.append(e2_run(pid, tier, [c17], only=only, flavours=("on",) if tier == "quick" else ("on", "off"),
                         assumptions=["a failing VM step leaves ip on the failing instruction and code/debug map untouched (every opcode arm); code_emit keeps the debug map parallel to the code and records the current token; build0's handler keeps an already reported run-time location",
-                                     "NOT decided here: the line/column scan token_location and which token is current at each emit across included files (string algorithms / whole-program)"],
-                        bounds="none (one-step lemmas)"))
+                                     "the real token_location on a text of K symbolic characters (LF, CR, tabs, multi-byte) for every token start: line = line feeds before it, column = characters since the line start, quoted line = the maximal break-free piece containing it (std str / ArcStr modelled as in C16)",
+                                     "NOT decided here: which token is current at each emit across included files and called words (whole-program); empty sources (no token can come from one)"],
+                        bounds="one-step lemmas; token_location: texts of <= 5 (quick) / <= 6 (thorough) characters"))
     elif pid == "C15":
         from e2.driver import e2_run
         from e2.lemmas import c15
